@@ -93,6 +93,8 @@ CANARIES = [
     ('delete-marks-dirty-on-error', 'C01', 'src/bucket.rs', '                let current_id = last.id;\n                let index = last.index;\n                self.dirty = true;\n                let node = self.node(current_id, None);\n                let mut node = node.borrow_mut();\n                match node.delete(index) {', '                let current_id = last.id;\n                let index = last.index;\n                let node = self.node(current_id, None);\n                let mut node = node.borrow_mut();\n                match node.delete(index) {'),
     ('put-leaf-counts-replacements', 'C01', 'src/bucket.rs', '            Some(current)\n        } else {\n            self.meta.next_int += 1;\n            None\n        };', '            self.meta.next_int += 1;\n            Some(current)\n        } else {\n            self.meta.next_int += 1;\n            None\n        };'),
     ('put-leaf-bumps-before-kind-check', 'C01', 'src/bucket.rs', '            let current = page_node.val(last.index).unwrap();\n            if current.is_kv() != leaf.is_kv() {', '            let current = page_node.val(last.index).unwrap();\n            self.dirty = true;\n            if current.is_kv() != leaf.is_kv() {'),
+    ('delbucket-no-already-freed-guard', 'C05', 'src/bucket.rs', '                                if !freelist.is_freed(meta.root_page) {\n                                    remaining_pages.push(meta.root_page);\n                                }', '                                remaining_pages.push(meta.root_page);'),
+    ('isfreed-other-tx', 'C05', 'src/freelist.rs', '            .get(&self.meta.tx_id)\n            .map_or(false, |pages| pages.contains(&page_id))', '            .get(&(self.meta.tx_id - 1))\n            .map_or(false, |pages| pages.contains(&page_id))'),
     ('getter-create-over-cached', 'C01', 'src/bucket.rs', '        } else if must_create {\n            return Err(Error::BucketExists);\n        }', '        }'),
     ('getter-wrong-error-kind', 'C01', 'src/bucket.rs', '                        _ => return Err(Error::IncompatibleValue),\n                    },', '                        _ => return Err(Error::BucketMissing),\n                    },'),
     ('getter-counts-lookups', 'C01', 'src/bucket.rs', '            if !exists {\n                if should_create {\n                    self.meta.next_int += 1;', '            self.meta.next_int += 1;\n            if !exists {\n                if should_create {'),
